@@ -2,11 +2,13 @@
 From Coq Require Extraction.
 From Coq Require Import ExtrOcamlBasic.
 From SQ Require Import lib.Base.
-From SQ Require model.DcReceiver model.DcSender.
+From SQ Require model.DcReceiver model.DcSender model.DcDedup.
 Extraction Language OCaml.
 
 Definition dcr_run := DcReceiver.run.
 Definition dcr_judge := DcReceiver.judge.
 Definition dcs_run := DcSender.run.
 Definition dcs_judge := DcSender.judge.
-Extraction "../ocaml/gen/C19/model.ml" dcr_run dcr_judge dcs_run dcs_judge.
+Definition dedup_run := DcDedup.run.
+Definition dedup_judge := DcDedup.judge.
+Extraction "../ocaml/gen/C19/model.ml" dcr_run dcr_judge dcs_run dcs_judge dedup_run dedup_judge.
